@@ -395,6 +395,164 @@ theorem inv_remContour (P : Params V) (T : Tables) (hcov : Coverage T = true) (w
       · intro kid
         exact Or.inl (findComp_set w w1 g r _ hdom.ids.keys hr hgs kid (by rw [hlk]) rfl rfl)
 
+/-- `insertComponent` of a loose component -/
+theorem inv_insComp (P : Params V) (T : Tables) (hcov : Coverage T = true) (w : World V) (g : String)
+    (kid idx : Nat) (hinv : Inv P T w) (hdom : Dom w) (hdom' : Dom (doInsComp T w g kid idx).1) :
+    Inv P T (doInsComp T w g kid idx).1 := by
+  unfold doInsComp at hdom' ⊢
+  cases hr : AL.get? w.glyphs g with
+  | none => simpa [hr] using hinv
+  | some r =>
+    cases hc : w.looseK.find? (fun k => k.id = kid) with
+    | none => simpa [hr, hc] using hinv
+    | some k =>
+      simp only [hr, hc] at hdom' ⊢
+      unfold glyphChange at hdom' ⊢
+      have hkid : k.id = kid := by simpa using List.find?_some hc
+      have hkm : k ∈ w.looseK := List.mem_of_find?_eq_some hc
+      have hnatt : attached w (.comp kid) = false := by
+        have := hdom.ids.looseK k hkm
+        rw [hkid] at this
+        simpa [attached] using this
+      generalize hw1 : ({ ({ w with looseK := w.looseK.filter (fun k => k.id != kid) } : World V) with
+          glyphs := updGlyph w.glyphs g fun r =>
+            { r with comps := insertAt r.comps idx { k with watch := watchFor w.glyphs k.base } } } : World V) = w1
+          at hdom' ⊢
+      have hgs : w1.glyphs = AL.set w.glyphs g
+          { r with comps := insertAt r.comps idx { k with watch := watchFor w.glyphs k.base } } := by
+        rw [← hw1]; exact updGlyph_eq_set _ hr
+      have hf : w1.fuel = w.fuel := by rw [← hw1]
+      have hrg : w1.regs = w.regs := by rw [← hw1]
+      have hgv : w1.groupsVer = w.groupsVer := by rw [← hw1]
+      have hca : w1.caches = w.caches := by rw [← hw1]
+      have hlc : w1.looseC = w.looseC := by rw [← hw1]
+      have hlk : w1.looseK = w.looseK.filter (fun k => k.id != kid) := by rw [← hw1]
+      have hd1 := Dom.congr (sameStruct_applyDeliv T _ _).symm hdom'
+      have hcg := cov_glyphOutline hcov (m := "insertComponent") (by simp [glyphOutlineMethods])
+      have hcreg1 : CachedRegistered T w1 := by
+        intro o nm sk v hv
+        rw [cacheOf_eq_of_caches hca] at hv
+        rw [hrg]; exact hinv.creg _ _ _ _ hv
+      have hother : ∀ kid', kid' ≠ kid →
+          hasComp kid' { r with comps := insertAt r.comps idx { k with watch := watchFor w.glyphs k.base } } = hasComp kid' r ∧
+          compIn { r with comps := insertAt r.comps idx { k with watch := watchFor w.glyphs k.base } } kid' = compIn r kid' := by
+        intro kid' e
+        have hne : ¬ (k.id = kid') := by rw [hkid]; exact fun e' => e e'.symm
+        exact ⟨any_insertAt _ _ _ _ (by simpa using hne), find?_insertAt _ _ _ _ (by simpa using hne)⟩
+      refine inv_glyph_local P T hcov w w1 g r _ (T.postsOf "Glyph" "insertComponent") _ hinv hr hgs hf hrg hgv
+        hd1 (fun y hy => hy) (Or.inl hcg.2) (fun o nm sk v _ hv => by rw [cacheOf_eq_of_caches hca] at hv; exact hv)
+        hcreg1 ?_ ?_ ?_ ?_
+      · -- loose
+        intro o ha
+        rw [cacheOf_eq_of_caches hca]
+        by_cases e : o = .comp kid
+        · subst e; exact hinv.loose _ hnatt
+        · have : attached w o = false := by
+            rw [← ha]; symm
+            cases o with
+            | contour cid' => exact attached_contour_set w w1 g r _ hdom.ids.keys hr hgs cid' rfl
+            | comp kid' =>
+              have hne : kid' ≠ kid := by intro e'; exact e (by rw [e'])
+              exact attached_comp_set w w1 g r _ hdom.ids.keys hr hgs kid' (hother kid' hne).1
+            | glyph x => exact attached_glyph_set w w1 g r _ hr hgs x
+            | groups => rfl
+          exact hinv.loose o this
+      · intro nm sk v hs
+        exact (glyph_self_dead T hinv.rdef hrg hcg.1 hd1.bounded (fun y hy => hy) hcreg1 hs).elim
+      · intro cid' nm sk v hs
+        have h1 := (get?_applyDeliv T _ _ _ nm sk v hs).1
+        rw [cacheOf_eq_of_caches hca] at h1
+        exact cont_of_view P T hinv h1
+          (viewOf_contour_of_find T (findContour_set w w1 g r _ hdom.ids.keys hr hgs cid' (by rw [hlc]) rfl rfl) nm)
+      · intro kid'
+        by_cases e : kid' = kid
+        · subst e
+          exact Or.inr (fun nm sk v hs => (no_entry_of_loose hinv.loose hnatt hca hs).elim)
+        · refine Or.inl (findComp_set w w1 g r _ hdom.ids.keys hr hgs kid' ?_ (hother kid' e).1 (hother kid' e).2)
+          rw [hlk]
+          exact find?_filter_of_imp _ _ _ (ne_imp_bneK e)
+
+/-- `removeComponent` -/
+theorem inv_remComp (P : Params V) (T : Tables) (hcov : Coverage T = true) (w : World V) (g : String)
+    (kid : Nat) (hinv : Inv P T w) (hdom : Dom w) (hdom' : Dom (doRemComp T w g kid).1) :
+    Inv P T (doRemComp T w g kid).1 := by
+  unfold doRemComp at hdom' ⊢
+  cases hr : AL.get? w.glyphs g with
+  | none => simpa [hr] using hinv
+  | some r =>
+    cases hc : compIn r kid with
+    | none => simpa [hr, hc] using hinv
+    | some k =>
+      simp only [hr, hc] at hdom' ⊢
+      unfold glyphChange at hdom' ⊢
+      have hkid : k.id = kid := by simpa [compIn] using List.find?_some hc
+      generalize hw1 : ({ (dropCache ({ w with looseK := w.looseK ++ [{ k with watch := Watch.none }] } : World V) (.comp kid)) with
+          glyphs := updGlyph (dropCache ({ w with looseK := w.looseK ++ [{ k with watch := Watch.none }] } : World V) (.comp kid)).glyphs g
+            fun r => { r with comps := r.comps.filter fun k => k.id != kid } } : World V) = w1
+          at hdom' ⊢
+      have hgs : w1.glyphs = AL.set w.glyphs g { r with comps := r.comps.filter fun k => k.id != kid } := by
+        rw [← hw1]; exact updGlyph_eq_set _ hr
+      have hf : w1.fuel = w.fuel := by rw [← hw1]; rfl
+      have hrg : w1.regs = w.regs := by rw [← hw1]; rfl
+      have hgv : w1.groupsVer = w.groupsVer := by rw [← hw1]; rfl
+      have hca : ∀ o, cacheOf w1 o = if Obj.comp kid = o then [] else cacheOf w o := by
+        intro o; rw [← hw1]; exact cacheOf_dropCache _ _ o
+      have hlc : w1.looseC = w.looseC := by rw [← hw1]; rfl
+      have hlk : w1.looseK = w.looseK ++ [{ k with watch := Watch.none }] := by rw [← hw1]; rfl
+      have hsub : ∀ o nm sk v, (cacheOf w1 o).get? nm sk = some v → (cacheOf w o).get? nm sk = some v := by
+        intro o nm sk v hv
+        rw [hca] at hv
+        by_cases e : Obj.comp kid = o
+        · simp [e, Cache.get?] at hv
+        · simpa [e] using hv
+      have hd1 := Dom.congr (sameStruct_applyDeliv T _ _).symm hdom'
+      have hcg := cov_glyphOutline hcov (m := "removeComponent") (by simp [glyphOutlineMethods])
+      have hcreg1 : CachedRegistered T w1 := by
+        intro o nm sk v hv
+        rw [hrg]; exact hinv.creg _ _ _ _ (hsub _ _ _ _ hv)
+      have hgone : ∀ nm sk, (cacheOf w1 (.comp kid)).get? nm sk = none := by
+        intro nm sk; rw [hca]; simp [Cache.get?]
+      refine inv_glyph_local P T hcov w w1 g r _ (T.postsOf "Glyph" "removeComponent") _ hinv hr hgs hf hrg hgv
+        hd1 (fun y hy => hy) (Or.inl hcg.2) (fun o nm sk v _ hv => hsub o nm sk v hv)
+        hcreg1 ?_ ?_ ?_ ?_
+      · -- loose
+        intro o ha nm sk
+        by_cases e : o = .comp kid
+        · subst e; exact hgone nm sk
+        · have : attached w o = false := by
+            rw [← ha]; symm
+            cases o with
+            | contour cid' => exact attached_contour_set w w1 g r _ hdom.ids.keys hr hgs cid' rfl
+            | comp kid' =>
+              have hne : kid' ≠ kid := by intro e'; exact e (by rw [e'])
+              exact attached_comp_set w w1 g r _ hdom.ids.keys hr hgs kid'
+                (any_filter_of_imp _ _ _ (ne_imp_bneK hne))
+            | glyph x => exact attached_glyph_set w w1 g r _ hr hgs x
+            | groups => rfl
+          cases hv : (cacheOf w1 o).get? nm sk with
+          | none => rfl
+          | some v =>
+            have h2 := hsub _ _ _ _ hv
+            rw [hinv.loose o this nm sk] at h2
+            cases h2
+      · intro nm sk v hs
+        exact (glyph_self_dead T hinv.rdef hrg hcg.1 hd1.bounded (fun y hy => hy) hcreg1 hs).elim
+      · intro cid' nm sk v hs
+        have h1 := (get?_applyDeliv T _ _ _ nm sk v hs).1
+        exact cont_of_view P T hinv (hsub _ _ _ _ h1)
+          (viewOf_contour_of_find T (findContour_set w w1 g r _ hdom.ids.keys hr hgs cid' (by rw [hlc]) rfl rfl) nm)
+      · intro kid'
+        by_cases e : kid' = kid
+        · subst e
+          refine Or.inr (fun nm sk v hs => ?_)
+          have h1 := (get?_applyDeliv T _ _ _ nm sk v hs).1
+          rw [hgone] at h1; cases h1
+        · refine Or.inl (findComp_set w w1 g r _ hdom.ids.keys hr hgs kid' ?_
+            (any_filter_of_imp _ _ _ (ne_imp_bneK e)) (find?_filter_of_imp _ _ _ (ne_imp_bneK e)))
+          rw [hlk]
+          have hne : ¬ (k.id = kid') := by rw [hkid]; exact fun e' => e e'.symm
+          exact find?_append_single _ _ _ (by simpa using hne)
+
 /-- an attribute mutator of a glyph (`gmut`) -/
 theorem inv_gmut (P : Params V) (T : Tables) (hcov : Coverage T = true) (w : World V) (g meth : String)
     (hinv : Inv P T w) (hdom : Dom w) (hdom' : Dom (doGmut T w g meth).1) : Inv P T (doGmut T w g meth).1 := by
